@@ -1,0 +1,67 @@
+//go:build verif
+
+// Machine-checked contracts for package hclwrite (see /verif/DESIGN.md).
+// This file contains comments only; it is compiled only with the "verif"
+// build tag and changes nothing in the package.
+
+package hclwrite
+
+// verif:unit U7 props=C12,C10
+
+// Ghost state: the set of nodes linked into a list. (Membership cannot be
+// "n.list == ns": nodes.Clear leaves orphans that still point at the list.)
+// verif:ghostfield nodes.members set
+// Ghost position, strictly increasing along the after links (rules out cycles).
+// verif:ghostfield node.pos int
+
+// WF(ns): the doubly linked list is consistent with its member set.
+// verif:pred WF(ns *nodes) = (ns.first == nil <==> ns.last == nil) && (ns.first != nil ==> in(ns.first, ns.members) && ns.first.before == nil) && (ns.last != nil ==> in(ns.last, ns.members) && ns.last.after == nil) && (forall r ref :: { in(r, ns.members) } in(r, ns.members) ==> r != nil && allocated(r)) && (forall m *node :: { in(m, ns.members) } in(m, ns.members) ==> m.list == ns && (m.after != nil ==> m.pos < m.after.pos) && (m.before == nil ==> ns.first == m) && (m.after == nil ==> ns.last == m) && (m.before != nil ==> in(m.before, ns.members) && m.before.after == m) && (m.after != nil ==> in(m.after, ns.members) && m.after.before == m))
+
+// detached(n): the node is in no list.
+// verif:pred detached(n *node) = n.list == nil && n.before == nil && n.after == nil
+
+// verif:func newNode
+//@ assigns nothing
+//@ ensures fresh(ret) && ret != nil && ret.content == c && detached(ret)
+
+// verif:func (*node).Detach
+//@ requires n.list != nil ==> WF(n.list) && in(n, n.list.members)
+//@ requires n.list == nil ==> detached(n)
+//@ assigns n.list, n.before, n.after, n.before.after, n.after.before, n.list.first, n.list.last, n.list.members
+//@ ghost old(n.list).members = del(old(n.list.members), n)
+//@ ensures det: detached(n)
+//@ ensures wf: old(n.list) != nil ==> WF(old(n.list))
+//@ ensures content: n.content == old(n.content)
+
+// verif:func (*node).ReplaceWith
+//@ requires attached: n.list != nil && WF(n.list) && in(n, n.list.members)
+//@ requires interior: n.before != nil && n.after != nil
+//@ assigns n.list, n.before, n.after, n.before.after, n.after.before, n.list.members
+//@ ghost old(n.list).members = add(del(old(n.list.members), n), ret)
+//@ ghost ret.pos = old(n.pos)
+//@ ensures new: fresh(ret) && ret != nil && ret.content == c && ret.list == old(n.list) && ret.before == old(n.before) && ret.after == old(n.after)
+//@ ensures det: detached(n)
+//@ ensures wf: WF(old(n.list))
+
+// verif:func (*nodes).Clear
+//@ assigns ns.first, ns.last, ns.members
+//@ ghost ns.members = emptyset()
+//@ ensures ns.first == nil && ns.last == nil && WF(ns)
+
+// verif:func (*nodes).AppendNode
+//@ requires WF(ns) && n != nil && detached(n)
+//@ assigns ns.first, ns.last, ns.last.after, n.before, n.list, ns.members, n.pos
+//@ ghost ns.members = add(old(ns.members), n)
+//@ ghost n.pos = ite(old(ns.last) == nil, 0, old(ns.last.pos) + 1)
+//@ ensures linked: n.list == ns && ns.last == n && n.after == nil && n.before == old(ns.last)
+//@ ensures first: (old(ns.first) != nil ==> ns.first == old(ns.first)) && (old(ns.first) == nil ==> ns.first == n)
+//@ ensures wf: WF(ns)
+
+// verif:func (*nodes).Append
+//@ requires WF(ns)
+//@ assigns ns.first, ns.last, ns.last.after, ns.members
+//@ ghost ns.members = add(old(ns.members), ret)
+//@ ensures new: fresh(ret) && ret != nil && ret.content == c
+//@ ensures linked: ret.list == ns && ns.last == ret && ret.after == nil && ret.before == old(ns.last)
+//@ ensures first: (old(ns.first) != nil ==> ns.first == old(ns.first)) && (old(ns.first) == nil ==> ns.first == ret)
+//@ ensures wf: WF(ns)
